@@ -180,7 +180,24 @@ func (h *hydrex) Save(ctx context.Context, indexName string, domain string, item
 
 	// iterating through the new items
 	for key, data := range items {
-		if _, ok := existingCoreData[key]; !ok {
+
+		existing, ok := existingCoreData[key]
+
+		if ok && existing.Value != data.Value {
+			// the key stays, its value changed: update the core data entry in place
+			// (the reverse index already lists the domain under this key)
+			createdAt := existing.CreatedAt
+			if createdAt.IsZero() {
+				createdAt = time.Now()
+			}
+			itemsForSave = append(itemsForSave, &CoreData{
+				Key:       key,
+				Value:     data.Value,
+				CreatedAt: createdAt,
+			})
+		}
+
+		if !ok {
 
 			// array for saving new items
 			itemsForSave = append(itemsForSave, &CoreData{
